@@ -35,6 +35,8 @@ Inductive call :=
 | KBinarySearchFuncSel (c : cmpsel) (target : Z)
 | KReverseSel (c : cmpsel) (a b : Z)                   (* ReverseComparator(shape c)(a, b) *)
 | KSortCmp (c : cmpsel)                                (* the comparator-taking sorts with a comparator of shape c *)
+| KEqualEl (e : elsel) (s2 : list Z) | KCompareEl (e : elsel) (s2 : list Z)   (* Equal / Compare on element class codes *)
+| KIndexEl (e : elsel) (v : Z) | KContainsEl (e : elsel) (v : Z) | KIsSortedEl (e : elsel)
 | KDiffOrdered (same : bool).                         (* zsortordered.go == zsortfunc.go up to `less` *)
 
 Inductive obs :=
@@ -107,6 +109,11 @@ Definition prop_ok (c : case) : bool :=
       else true
   | KReverseSel c a b, OInt r => r =? - zcmp_of c a b
   | KSortCmp c, OList ys _ _ => sorted_perm_b (less_of_cmp c) xs ys
+  | KEqualEl e s2, OBool b => Bool.eqb b (spec_equal_func (eq_of e) xs s2)
+  | KCompareEl e s2, OInt r => r =? spec_compare_func (cmp3_by (lt_of e)) xs s2
+  | KIndexEl e v, OInt r => r =? spec_index (eq_of e) xs v
+  | KContainsEl e v, OBool b => Bool.eqb b (existsb (eq_of e v) xs)
+  | KIsSortedEl e, OBool b => Bool.eqb b (sorted_adj_b (lt_of e) xs)
   | KDiffOrdered _, ONone => true
   | _, _ => false
   end.
@@ -152,6 +159,11 @@ Definition model_ok (c : case) : bool :=
   | KBinarySearchFuncSel c t, OPos i f => let '(i', f') := binary_search_func (zcmp_of c) xs t in (i =? i') && Bool.eqb f f'
   | KReverseSel c a b, OInt r => r =? reverse_cmp (zcmp_of c) a b
   | KSortCmp _, OList _ _ _ => true                                      (* stdlib sort.Sort: output checker only *)
+  | KEqualEl e s2, OBool b => Bool.eqb b (equal_func (eq_of e) xs s2)
+  | KCompareEl e s2, OInt r => r =? compare_func (cmp3_by (lt_of e)) xs s2
+  | KIndexEl e v, OInt r => r =? index_by (eq_of e) xs v
+  | KContainsEl e v, OBool b => Bool.eqb b (contains_by (eq_of e) xs v)
+  | KIsSortedEl e, OBool b => Bool.eqb b (is_sorted_func (lt_of e) xs)
   | KDiffOrdered same, ONone => same
   | _, _ => false
   end.
